@@ -32,6 +32,10 @@ std::vector<PacketPtr> TECMP::Decoder::Decode(const void* data, const std::size_
 
 TecmpPayloadPtr TECMP::Decoder::GetCaptureModulePayload(const uint8_t* payloadData, const std::size_t size)
 {
+    // The fixed part of the status message must be complete
+    if (size < CaptureModulePayload().getLength())
+        return {};
+
     CaptureModulePayload payload(payloadData, size);
     if (payload.isValid())
         return std::make_shared<Payload>(payload);
